@@ -5,6 +5,7 @@
 pub mod src;
 pub mod c04;
 pub mod c07;
+pub mod c09;
 pub mod c15;
 pub mod u1;
 pub mod gen_float_table;
@@ -24,6 +25,7 @@ pub fn registry() -> Vec<(&'static str, NativeHarness)> {
     let mut v: Vec<(&'static str, NativeHarness)> = vec![];
     v.extend(c04::registry());
     v.extend(c07::registry());
+    v.extend(c09::registry());
     v.extend(c15::registry());
     v.extend(u1::registry());
     v.extend(u4::registry());
